@@ -314,7 +314,21 @@ impl ASN1Type {
     ) -> Result<(), GrammarError> {
         match self {
             ASN1Type::ChoiceSelectionType(c) => {
-                if let Some(ToplevelDefinition::Type(parent)) = tlds.get(&c.choice_name) {
+                if let Some(ToplevelDefinition::Type(named)) = tlds.get(&c.choice_name) {
+                    // the CHOICE may be reached through type references (`Alias ::= Choice`)
+                    let mut parent = named;
+                    let mut hops = 0;
+                    while let ASN1Type::ElsewhereDeclaredType(alias) = &parent.ty {
+                        match tlds.get(&alias.identifier) {
+                            Some(ToplevelDefinition::Type(next))
+                                if alias.constraints.is_empty() && hops < tlds.len() =>
+                            {
+                                parent = next;
+                                hops += 1;
+                            }
+                            _ => break,
+                        }
+                    }
                     // X.680 30: a selection type denotes the type of the selected alternative
                     match &parent.ty {
                         ASN1Type::Choice(choice) => {
